@@ -403,6 +403,15 @@ func init() {
 				mode := []string{"lonely-self", "absent"}[i%2]
 				cs = append(cs, CaseSpec{Kind: "live", P: map[string]int64{"n": int64(3 + (i/2)%4), "limit": int64(3 + (i*5)%8), "pendingjoin": int64(i % 2)}, S: map[string]string{"mode": mode}})
 			}
+			// validators started without gossip (Run(false)) that only answer, while a
+			// validator that never gives up pushes events at them
+			passive := 3
+			if tier == "thorough" {
+				passive = 24
+			}
+			for i := 0; i < passive; i++ {
+				cs = append(cs, CaseSpec{Kind: "live", P: map[string]int64{"n": int64(4 + i%2), "limit": int64(3 + (i*3)%6), "passive": 1}, S: map[string]string{"mode": "absent"}})
+			}
 			rets := 48
 			if tier == "thorough" {
 				rets = 480
